@@ -576,7 +576,8 @@ def apply_edit(cls, img, op):
             hdr['db_name'] = b'c07'
         elif op[2] in ('zooms', 'zooms2'):
             z = list(hdr.get_zooms())
-            z[:3] = [7.0, 6.0, 5.0] if op[2] == 'zooms' else [1.0, 1.0, 1.0]
+            n = min(len(z), 3)
+            z[:n] = ([7.0, 6.0, 5.0] if op[2] == 'zooms' else [1.0, 1.0, 1.0])[:n]
             hdr.set_zooms(z)
     else:
         raise ValueError(op)
